@@ -32,6 +32,26 @@ def exact_evidence(ls, n):
     return float(m + mpmath.log(mpmath.fsum([mpmath.exp(x - m) for x in fin])) - mpmath.log(n))
 
 
+def exact_dkl2(ps, qs, dV):
+    """sum p ln(p/q) dV for the two PDFs normalised to sum p dV = sum q dV = 1 (40 digits); +inf when q vanishes where p does not"""
+    mp = mpmath.mp.clone()
+    mp.dps = 40
+    mx_p = max(x for x in ps if x != NINF)
+    mx_q = max(x for x in qs if x != NINF)
+    zp = mp.fsum([mp.exp(mp.mpf(x) - mx_p) for x in ps if x != NINF]) * mp.mpf(dV)
+    zq = mp.fsum([mp.exp(mp.mpf(x) - mx_q) for x in qs if x != NINF]) * mp.mpf(dV)
+    tot = mp.mpf(0)
+    for x, y in zip(ps, qs):
+        if x == NINF:
+            continue
+        if y == NINF:
+            return math.inf
+        lp = mp.mpf(x) - mx_p - mp.log(zp)
+        lq = mp.mpf(y) - mx_q - mp.log(zq)
+        tot += mp.exp(lp) * (lp - lq)
+    return float(tot * mp.mpf(dV))
+
+
 def exact_dkl(ls, N):
     fin = [mpmath.mpf(x) for x in ls if x != NINF]
     m = max(fin)
@@ -153,10 +173,26 @@ def run(R):
         if abs(d_self) > 1e-9 or math.isnan(d_pq) or d_pq < -1e-9:
             bad = bad or {'fn': 'dkl', 'p': full, 'q': qs, 'dV': dV, 'dkl_self': d_self, 'dkl_pq': d_pq,
                           'check': 'divergence zero for identical inputs and non-negative otherwise'}
+        # q with its own zero-probability samples (not those of p) and its own spread: against the exact value of the definition,
+        # sum p ln(p/q) dV for the normalised PDFs, which is +inf when q vanishes where p has mass
+        q2 = [R.rng.choice([x, x, R.rng.uniform(-30, 5)]) if x != NINF else R.rng.choice([NINF, R.rng.uniform(-30, 5)]) for x in full]
+        q2 = [x + R.rng.uniform(-3, 3) for x in q2]
+        if len(q2) > 1 and R.rng.random() < 0.4:
+            q2[R.rng.randrange(len(q2))] = NINF
+        if all(x == NINF for x in q2) or all(x == NINF for x in full):
+            continue
+        want2 = exact_dkl2(full, q2, dV)
+        with np.errstate(all='ignore'):
+            d2 = float(pr.dkl(np.array(full), np.array(q2), dV))
+        R.count(('dkl2', i), nontrivial=want2 == math.inf)
+        ok2 = (d2 == math.inf) if want2 == math.inf else (not math.isnan(d2) and d2 >= -1e-9 and (close(d2, want2, 1e-8) or abs(d2 - want2) < 1e-9))
+        if not ok2:
+            bad = bad or {'fn': 'dkl', 'p': full, 'q': q2, 'dV': dV, 'dkl_pq': d2, 'expected': want2,
+                          'check': 'divergence between two sampled PDFs equals sum p ln(p/q) dV of the normalised PDFs (non-negative; +inf when q is zero where p has mass)'}
     if bad:
         R.violation('%s: %s fails' % (bad['fn'], bad['check']), bad)
     R.cov['rule'] = ('random log-likelihood vectors (moderate, very negative, widely spread, positive) with -inf entries and N >= '
-                     'number of non-zero samples; 2-5 log evidences spanning +-1e3 in random order; non-trivial = not the plain '
+                     'number of non-zero samples; 2-5 log evidences spanning +-1e3 in random order; two-PDF divergence with independent zero-probability samples in q against the 40-digit definition; non-trivial = not the plain '
                      'moderate style / maximum not first')
     return proved
 
